@@ -249,6 +249,12 @@ func (x *Exec) bindResult(vars map[string]cvar, fn *ssa.Function, rv Val) {
 // callSiteAsserts: assertions written in the caller's contract for calls of key, evaluated in
 // the caller's frame (its locals are visible) immediately before the call.
 func (x *Exec) callSiteAsserts(fr *Frame, st *State, key string, in ssa.Instruction) {
+	x.callSiteAssertsArgs(fr, st, key, in, nil)
+}
+
+// callSiteAssertsArgs: as callSiteAsserts, with the callee's parameters visible by name (for
+// interface methods, where different call sites pass different expressions).
+func (x *Exec) callSiteAssertsArgs(fr *Frame, st *State, key string, in ssa.Instruction, params map[string]cvar) {
 	if fr == nil || x.dry > 0 {
 		return
 	}
@@ -261,7 +267,7 @@ func (x *Exec) callSiteAsserts(fr *Frame, st *State, key string, in ssa.Instruct
 		return
 	}
 	for _, cl := range ccon.CallSites[key] {
-		x.assertClause(st, "callsite", "before "+key+": ", x.clauseEnv(fr, st, nil), cl, in.Pos())
+		x.assertClause(st, "callsite", "before "+key+": ", x.clauseEnv(fr, st, params), cl, in.Pos())
 	}
 }
 
@@ -292,9 +298,11 @@ func (x *Exec) applyContract(fr *Frame, st *State, con *FuncContract, fn *ssa.Fu
 	// havoc modifies
 	if con.Flags["pure"] == "" {
 		mods := x.evalModifies(&cenv{x: x, st: pre, old: pre, vars: vars}, con.Modifies)
+		x.havocFor = key
 		for _, m := range mods {
 			x.havocEntry(st, m, pos)
 		}
+		x.havocFor = ""
 		if con.Flags["allocates"] != "" || true {
 			a := x.alloc(st)
 			na := fresh("alloc", sortInt)
@@ -560,6 +568,11 @@ func (x *Exec) havocEntry(st *State, m modEntry, pos token.Pos) {
 		sty := structOf(m.typ)
 		for i := 0; i < sty.NumFields(); i++ {
 			hn, so := te.fieldHeap(m.typ, i)
+			// fields declared immutable are written by constructors only (checked), so a
+			// callee that is not a constructor cannot change them even under all(x)
+			if x.env.con.Immutable[te.namedKey(m.typ)+"."+sty.Field(i).Name()] && x.havocFor != "" && !x.env.con.Ctors[x.havocFor] {
+				continue
+			}
 			if m.whole {
 				x.checkWrite(st, hn, nil, pos)
 				st.setH(hn, fresh("havoc."+sty.Field(i).Name(), so))
@@ -1040,6 +1053,7 @@ func (x *Exec) execInvoke(fr *Frame, st *State, cc *ssa.CallCommon, in ssa.Instr
 			}
 			vars[n] = cvar{v: args[i+1], t: sig.Params().At(i).Type()}
 		}
+		x.callSiteAssertsArgs(fr, st, key, in, vars)
 		ce := &cenv{x: x, st: st, old: st, vars: vars}
 		for _, cl := range con.Requires {
 			x.assertClause(st, "precondition", key+" requires ", ce, cl, pos)
@@ -1048,6 +1062,9 @@ func (x *Exec) execInvoke(fr *Frame, st *State, cc *ssa.CallCommon, in ssa.Instr
 			x.unit.Trusted[key] = true
 		}
 		pre := st.clone()
+		if con.Flags["counted"] != "" {
+			x.countCall(st, key, nil)
+		}
 		mods := x.evalModifies(&cenv{x: x, st: pre, old: pre, vars: vars}, con.Modifies)
 		for _, m := range mods {
 			x.havocEntry(st, m, pos)
@@ -1118,8 +1135,37 @@ func (x *Exec) onChanSend(fr *Frame, st *State, ch *Term, v Val, et types.Type, 
 	}
 }
 
-func (x *Exec) chanRecv(fr *Frame, st *State, ch *Term, et types.Type, in ssa.Instruction) Val {
+// chanRecv: the received value is unknown except for the channel's declared invariant (what
+// every send on it was checked against), assumed under cond (the select case being chosen).
+// Channels with a declared invariant are assumed never to be closed (a receive from a closed
+// channel yields the zero value).
+func (x *Exec) chanRecv(fr *Frame, st *State, ch *Term, et types.Type, in ssa.Instruction, chv ssa.Value, cond *Term) Val {
 	v := x.freshOf(st, "recv", et)
+	key := x.chanKey(chv)
+	if key == "" {
+		return v
+	}
+	con := x.env.con.Callbacks["chan:"+key]
+	if con == nil {
+		return v
+	}
+	con.used = true
+	vars := map[string]cvar{"msg": {v: v, t: et}}
+	if u, ok := chv.(*ssa.UnOp); ok {
+		if fa, ok := u.X.(*ssa.FieldAddr); ok {
+			vars["self"] = cvar{v: x.val(fr, fa.X), t: fa.X.Type()}
+		}
+	}
+	sub := st
+	if cond != nil && cond != tTrue {
+		sub = st.clone()
+		sub.pc = mkAnd(st.pc, cond)
+	}
+	ce := &cenv{x: x, st: sub, old: fr.old, vars: vars}
+	for _, cl := range con.Requires {
+		x.assume(sub, ce.evalBool(cl.Expr))
+	}
+	x.note("receive on " + key + ": the channel invariant is assumed for the received value (the channel is never closed)")
 	return v
 }
 
